@@ -76,7 +76,9 @@ _STORAGE_RULE = ("stream storage: sequential histories against the real InMemory
                  "replayed positions are frequent, min-distance 0/1/2/5 s, timestamps mostly non-decreasing along the log, broker offset moving, a "
                  "detail fetch after every commit) and 'general' (1-2 clusters, 6 group names incl. spaces/unicode, 3 topics, <=4 partitions, ring sizes 1-4, "
                  "expire-group 3600/5/1 s with commit times on the expiry boundary, allow/deny regexps, all twelve request types incl. deletions of each kind "
-                 "followed by all fetches of everything, time shifting, out-of-range partitions). Non-trivial = an output other than ok / empty list / nil.")
+                 "followed by all fetches of everything, time shifting, out-of-range partitions; S reap = the cluster module's REAL groups reaper run against this storage over the application's storage channel, "
+                 "Kafka listing a random subset of the groups or failing, the cluster's own burrow-<cluster> group among the stored ones; S consumerbusy = a detail fetch while a concurrent reader holds the group map's read lock). "
+                 "Non-trivial = an output other than ok / empty list / nil.")
 _STORAGE_STREAM = {"name": "storage", "trivial": r"^(ok( ~place=none)?|nil|list=-|gs=0 .*)$", "hist_keys": ["place"],
                    "scale": {"quick": 4, "thorough": 40}, "seeds": {"quick": 1, "thorough": 4}}
 
